@@ -193,7 +193,9 @@ Fixpoint rd_insert_sorted (e : N * N * c3_xe) (l : rd_tbl) : rd_tbl :=
   match l with
   | [] => [e]
   | h :: t => let '(o, g, _) := e in let '(o', g', _) := h in
-              if (o <? o') || ((o =? o') && (g <? g')) then e :: l else h :: rd_insert_sorted e t
+              if (o <? o') || ((o =? o') && (g <? g')) then e :: l
+              else if (o =? o') && (g =? g') then l          (* std::map: one entry per key (never happens: c3_has) *)
+              else h :: rd_insert_sorted e t
   end.
 Definition rd_found_og (t : rd_tbl) (end_ : N) : N * option (N * N) :=
   fold_left (fun (acc : N * option (N * N)) (e : N * N * c3_xe) =>
@@ -855,7 +857,20 @@ Fixpoint rd_read_xref (fuel : nat) (file : list N) (max_id : N) (x : rd_xst) (of
       end
   end.
 
-(* the final table: only the highest generation of each object number is kept *)
+(* the final pass of read_xref AS CODED: the table is walked in (obj, gen) order with the previous entry remembered;
+   when the current entry has the object number of the remembered one (and the number is positive) the remembered one is
+   removed; the current one is remembered.  [l] must be in map order. *)
+Fixpoint rd_gen_pass (l : rd_tbl) : rd_tbl :=
+  match l with
+  | [] => []
+  | a :: r =>
+      match r with
+      | [] => [a]
+      | b :: _ => if (fst (fst a) =? fst (fst b)) && (0 <? fst (fst b)) then rd_gen_pass r else a :: rd_gen_pass r
+      end
+  end.
+
+(* the same pass as a specification: only the highest generation of each object number is kept (not used by rd_view) *)
 Definition rd_final_tbl (t : rd_tbl) : rd_tbl :=
   filter (fun e => match c3_best t (fst (fst e)) with
                    | Some (g, _) => g =? snd (fst e)
@@ -871,6 +886,35 @@ Record rd_doc := mkRdDoc { rdd_version : list N; rdd_shift : N; rdd_trailer : mo
 Inductive rd_result := RdDoc (d : rd_doc) | RdOutside (code : N) (w : list rd_w) | RdFatal (code : N) (w : list rd_w).
 (* RdFatal: 1 unable to find page tree *)
 
+
+(* resolveObjectsInStream caches every member of a stream the first time one of them is asked for: the view does the same
+   (one pass per object stream).  Same result as rd_resolve on each member, except on reference loops that run through the
+   object stream itself, where qpdf's own result depends on the order of the requests. *)
+Definition rd_stm_result := (list rd_w * ((list (Z * rd_obj) * list rd_w) + (N * list rd_w)))%type.
+Definition rd_stm_cache (fuel : nat) (e : rd_env) : list (N * rd_stm_result) :=
+  fold_left (fun (acc : list (N * rd_stm_result)) (ent : N * N * c3_xe) =>
+               match ent with
+               | (_, _, C3Comp stm _) =>
+                   if existsb (fun x => fst x =? stm) acc then acc
+                   else (stm, (let '(so, ws) := rd_resolve fuel e [] (stm, 0) in (ws, rd_objstm_members e stm so))) :: acc
+               | _ => acc
+               end) (rde_tbl e) [].
+Fixpoint rd_cache_get (stm : N) (c : list (N * rd_stm_result)) : option rd_stm_result :=
+  match c with
+  | [] => None
+  | (k, v) :: r => if k =? stm then Some v else rd_cache_get stm r
+  end.
+Definition rd_resolve_top (fuel : nat) (e : rd_env) (cache : list (N * rd_stm_result)) (ent : N * N * c3_xe) : rd_obj * list rd_w :=
+  let '(o, g, x) := ent in
+  match x, rd_pre_get (rde_pre e) o g with
+  | C3Comp stm _, None =>
+      match rd_cache_get stm cache with
+      | Some (ws, inl (members, w)) => (match rd_assoc_z (Z.of_N o) members with Some v => v | None => rd_null end, ws ++ w)
+      | Some (ws, inr (c, w)) => (rd_null, ws ++ w ++ [RdW_exc c])
+      | None => rd_resolve fuel e [] (o, g)
+      end
+  | _, _ => rd_resolve fuel e [] (o, g)
+  end.
 
 (* an object stream whose filters the model does not decode was met: the model abstains *)
 Definition rd_is_undecodable (w : rd_w) : bool := match w with RdW_exc 7 => true | _ => false end.
@@ -904,7 +948,7 @@ Definition rd_view_at (version : list N) (w0 : list rd_w) (file : list N) : rd_r
                                    if (s <? 1)%Z || negb (s - 1 =? Z.of_N max_obj)%Z then [RdW_xref 6] else []
                                | _ => [RdW_xref 6]
                                end in
-                  let tbl := fold_right rd_insert_sorted [] (rd_final_tbl tbl0) in
+                  let tbl := rd_gen_pass (fold_right rd_insert_sorted [] tbl0) in
                   let e := mkRdEnv file tbl pre max_id true in
                   let fuel := S (S (length tbl)) in
                   if rd_has_key rd_s_Encrypt tr then RdOutside 19 (w0 ++ rdx_w x ++ wsize) else
@@ -928,10 +972,11 @@ Definition rd_view_at (version : list N) (w0 : list rd_w) (file : list N) : rd_r
                       match rdo_val pages, rdo_stream pages with
                       | MoDict _, None =>
                           let root_og := match rd_dict_get rd_s_Root tr with MoRef id gen => Some (Z.to_N id, Z.to_N gen) | _ => None end in
+                          let cache := rd_stm_cache fuel e in
                           let items_w :=
                               fold_left (fun (acc : list rd_item * list rd_w) (ent : N * N * c3_xe) =>
                                            let '(o, g, _) := ent in
-                                           let '(v, w) := rd_resolve fuel e [] (o, g) in
+                                           let '(v, w) := rd_resolve_top fuel e cache ent in
                                            (* getRoot() replaces a missing or wrong /Type of the catalog *)
                                            let val := match root_og, rdo_val v with
                                                       | Some (ro, rg), MoDict dd =>
